@@ -352,13 +352,13 @@ func (fs *fsMutable) Rename(ctx context.Context, op *fuseops.RenameOp) (err erro
 	if !found {
 		return jfuse.ENOENT
 	}
-	newChild, found, _ := fs.lookup(op.NewParent, op.NewName)
+	_, found, _ = fs.lookup(op.NewParent, op.NewName)
 	if found {
-		if newChild.mode.IsDir() {
-			return jfuse.ENOSYS
+		// Replace the existing target. The kernel has checked that the types are compatible;
+		// a non-empty directory cannot be replaced (ENOTEMPTY) and must be left untouched.
+		if err = fs.deleteNSEntry(op.NewParent, op.NewName); err != nil {
+			return err
 		}
-		// Delete new child, ignore if not present
-		_ = fs.deleteNSEntry(op.NewParent, op.NewName)
 	}
 
 	// Insert iNode into new readDir and lookup and remove from old.
